@@ -92,6 +92,11 @@ func (*prop) Cases(seed int64, tier string) []core.Case {
 	for i := 0; i < 4; i++ {
 		cs = append(cs, core.MkCase("order", map[string]int{"n": randN / 4}))
 	}
+	nmany := 200_000
+	if tier == "thorough" {
+		nmany = 1_000_000
+	}
+	cs = append(cs, core.MkCase("many-distinct", map[string]int{"n": nmany}))
 	nfirst := 2
 	if tier == "thorough" {
 		nfirst = 12
@@ -328,6 +333,8 @@ func (p *prop) Run(c core.Case, w *core.Worker) core.Result {
 		runOrder(c, w, &res)
 	case "first-use":
 		runFirstUse(c, w, &res)
+	case "many-distinct":
+		runManyDistinct(c, w, &res)
 	case "segments":
 		inputs := []string{"", "_id", "-x", ".hidden", " x", "_", "__", "-", "a_", "go", "type", "2fa", "c-d", "c.d", "c~d", "v2", "yaml.v3", "json-iterator", "_x", "~user", "+inf",
 			"ID", "userID", "HTTPServer", "PDFLoader", "BöseÜberraschung", "BadUTF8\xe2\xe2\xa1", "99Bottles", "Two  spaces", "ǅx", "xǅ", "ǅ"}
@@ -428,6 +435,39 @@ func runFirstUse(c core.Case, w *core.Worker, res *core.Result) {
 		}
 		res.NonTrivial(fmt.Sprintf("first-use|%d|%d|%d|%d", c.Seed, child, pa["procs"], pa["g"]))
 		res.Count("first_use_results_compared", int64(len(fns)*len(inputs)*len(ch.Out)))
+	}
+}
+
+// runManyDistinct: very many distinct inputs through ONE process (enough for birthday collisions in any 32-bit key
+// space), forwards in one fresh process and backwards in another; a memo keyed by anything less than the input itself
+// makes the two disagree.
+func runManyDistinct(c core.Case, w *core.Worker, res *core.Result) {
+	var pa map[string]int
+	c.Decode(&pa)
+	r := rand.New(rand.NewSource(c.Seed))
+	seen := map[string]bool{}
+	inputs := make([]string, 0, pa["n"])
+	alphabet := []string{"a", "b", "c", "d", "e", "x", "y", "z", "A", "B", "Z", "ID", "Http", "_", "-", " ", "1", "9", "é", "İ", "ß"}
+	for len(inputs) < pa["n"] {
+		s := core.RandString(r, alphabet, 3+r.Intn(8))
+		if !seen[s] {
+			seen[s] = true
+			inputs = append(inputs, s)
+		}
+	}
+	diffs, problem := firstuse.ManyDistinct(w.Scratch, fmt.Sprintf("c19many-%d", c.ID), "camelcase", inputs)
+	if problem != "" {
+		res.Inconclusive = append(res.Inconclusive, "many-distinct: "+clipS(problem, 800))
+		return
+	}
+	res.Evals += int64(len(inputs))
+	res.Count("many_distinct_inputs_compared_across_orders", int64(len(inputs)))
+	res.NonTrivial(fmt.Sprintf("many-distinct|%d|%d", c.Seed, len(inputs)))
+	for i, d := range diffs {
+		if i >= 20 {
+			break
+		}
+		res.Fail("pure", "many distinct "+d.Func, fmt.Sprintf("%s(%q) = %q in a process that saw %d distinct inputs forwards, %q in one that saw them backwards", d.Func, d.Input, d.Forward, len(inputs), d.Reverse), d.Input)
 	}
 }
 
